@@ -215,6 +215,30 @@ func checkC09(r *Report, known []Finding) {
 		var u coregex.Regex
 		ue := u.UnmarshalText(m1)
 		cmp("UnmarshalText", "<nil>|"+std.String(), errStr(ue)+"|"+u.String())
+		// UnmarshalText into a value that is ALREADY compiled — in POSIX syntax, or switched to leftmost-longest — must reset it to
+		// what Compile(text) gives (regexp: `*re = *newRE`): same metadata, same (leftmost-first, Perl) behaviour
+		if sp, e1 := regexp.CompilePOSIX(p); e1 == nil {
+			if cp2, e2 := coregex.CompilePOSIX(p); e2 == nil {
+				sl, cl := regexp.MustCompile(p), coregex.MustCompile(p)
+				sl.Longest()
+				cl.Longest()
+				e3, e4 := sp.UnmarshalText(m1), cp2.UnmarshalText(m1)
+				e5, e6 := sl.UnmarshalText(m1), cl.UnmarshalText(m1)
+				a1, b1 := sp.LiteralPrefix()
+				a2, b2 := cp2.LiteralPrefix()
+				cmp("UnmarshalText(into POSIX value)", fmt.Sprintf("%v|%s|%q,%v", e3, sp.String(), a1, b1), fmt.Sprintf("%v|%s|%q,%v", e4, cp2.String(), a2, b2))
+				ast, _ := syntax.Parse(p, syntax.Perl)
+				hr := root.Fork(uint64(i) + 424242)
+				for k := 0; k < 3; k++ {
+					h := GenHaystack(hr, ast, true)
+					if len(h) > 60 {
+						h = h[:60]
+					}
+					cmp("UnmarshalText(into POSIX value).FindIndex", fmt.Sprint(sp.FindIndex(h)), fmt.Sprint(cp2.FindIndex(h)))
+					cmp("UnmarshalText(into Longest value).FindIndex", fmt.Sprintf("%v%v|%v", e5, e6, sl.FindIndex(h)), fmt.Sprintf("%v%v|%v", e5, e6, cl.FindIndex(h)))
+				}
+			}
+		}
 		// Copy + Longest isolation (C10 shares this)
 		probe := "aab ab abab"
 		before := fmt.Sprint(cx.FindStringIndex(probe))
